@@ -37,3 +37,31 @@ if a in s and b in s:
     print('DESIGN.md catalogue updated')
 else:
     print(out)
+
+# --- section 12: seeded changes (from seeded/*/meta.json and out/seeds_summary.json, if present) ---
+import json
+sd = os.path.join(core.VERIF, 'seeded')
+summ = {}
+sp = os.path.join(core.VERIF, 'out', 'seeds_summary.json')
+if os.path.exists(sp):
+    summ = json.load(open(sp))
+rows = ['| seeded change | property | needs, to manifest | result of `bin/check` with the change applied | first failed obligation | replay on the real code |', '|---|---|---|---|---|---|']
+for name in sorted(os.listdir(sd)):
+    mp = os.path.join(sd, name, 'meta.json')
+    if not os.path.exists(mp):
+        continue
+    m = json.load(open(mp)); r = summ.get(name)
+    if r:
+        res = {0: 'exit 0: **not detected**', 1: 'exit 1: VIOLATION', 2: 'exit 2: CHECK-BROKEN'}.get(r['exit'], '?')
+        ob = ('%s %s' % (r['failed_obligations'][0]['harness'], r['failed_obligations'][0]['id'])) if r['failed_obligations'] else '-'
+        rp = 'REPRODUCED' if r['reproduced_on_real_code'] else ('no-failing-input-found' if r['violations'] else '-')
+    else:
+        res, ob, rp = 'not run', '-', '-'
+    rows.append('| `%s`: %s | %s | %s | %s | %s | %s |' % (name, m['summary'].replace('|', '/'), m['property'], m['needs'].replace('|', '/'), res, ob, rp))
+out = '\n'.join(rows)
+s = open(p).read()
+a, b = '<!-- BEGIN SEEDED -->', '<!-- END SEEDED -->'
+if a in s and b in s:
+    s = s[:s.index(a) + len(a)] + '\n' + out + '\n' + s[s.index(b):]
+    open(p, 'w').write(s)
+    print('DESIGN.md seeded table updated')
